@@ -478,7 +478,21 @@ pub const MAX_NODES: usize = 15;
 
 pub fn shape_strategy(depth: u32, size: u32, branch: u32) -> BoxedStrategy<Shape> {
     let leaf = any::<u8>().prop_map(|k| Shape { k, kids: vec![] });
-    leaf.prop_recursive(depth, size, branch, move |inner| (any::<u8>(), prop::collection::vec(inner, 0..=(branch as usize))).prop_map(|(k, kids)| Shape { k, kids })).boxed()
+    // arities 1 and 2 are the common ones in real trees (and there are many unary / binary variants)
+    let arity = move || prop_oneof![1 => Just(0usize), 4 => Just(1usize), 4 => Just(2usize), 2 => Just(3usize), 1 => Just(4usize), 1 => Just(branch as usize)];
+    let tree = leaf.prop_recursive(depth, size, branch, move |inner| {
+        (any::<u8>(), arity(), prop::collection::vec(inner, branch as usize..=branch as usize)).prop_map(|(k, n, mut kids)| {
+            kids.truncate(n);
+            Shape { k, kids }
+        })
+    });
+    // the root has at least one child in most cases
+    (any::<u8>(), prop_oneof![1 => Just(0usize), 5 => Just(1usize), 5 => Just(2usize), 3 => Just(3usize), 1 => Just(4usize)], prop::collection::vec(tree, 4..=4))
+        .prop_map(|(k, n, mut kids)| {
+            kids.truncate(n);
+            Shape { k, kids }
+        })
+        .boxed()
 }
 
 pub fn rec_strategy() -> BoxedStrategy<Rec> {
